@@ -238,6 +238,13 @@ def splice_fn(text, spl, name, log):
     """text: source text of one fn item (signature + body or ';').
     spl: dict with keys sig, head, attr, loops{k:{inv,head,tail,iter}}, external.
     Returns annotated text."""
+    if spl.get("strlen"):
+        # R14: `<ident>.len()` where <ident> is a `&str` parameter -> `verif_str_len(<ident>)` (vstd gives str::len no usable spec)
+        idn = spl["strlen"]
+        new_text, n14 = re.subn(r"\b%s\.len\(\)" % re.escape(idn), "verif_str_len(%s)" % idn, text)
+        if n14:
+            log.append({"rule": "R14", "in": name, "before": f"{idn}.len()", "after": f"verif_str_len({idn})"})
+            text = new_text
     toks = lex(text)
     ct = code_tokens(toks)
     # signature end: first '{' or ';' at depth 0
@@ -361,7 +368,7 @@ def expand_macro(src_obj, call_text):
     """Expand a macro_rules! invocation textually. Supports the shapes used in the
     repository: a single rule whose matcher is a comma separated list of
     `$name:frag` and/or one repetition `$($name:frag),+`."""
-    m = re.match(r"\s*([A-Za-z_0-9]+)\s*!\s*\((.*)\)\s*;?\s*$", call_text, re.S)
+    m = re.match(r"\s*([A-Za-z_0-9]+)\s*!\s*[\(\{](.*)[\)\}]\s*;?\s*$", call_text, re.S)
     if not m:
         raise LostAnchor("bad macro call " + call_text)
     mname, argtext = m.group(1), m.group(2)
@@ -372,36 +379,58 @@ def expand_macro(src_obj, call_text):
     if mdef is None:
         raise LostAnchor("macro_rules! %s not found" % mname)
     ct = src_obj.ct
-    # body: { (matcher) => { transcriber } ; }
+    # body: { (matcher) => { transcriber } ; (matcher) => { transcriber } ; ... }
+    rules = []
     i = mdef.body_open + 1
-    if ct[i].text != "(":
-        raise LostAnchor("macro matcher shape")
-    mc = match_close(ct, i)
-    matcher = src_obj.src[ct[i].end:ct[mc].start]
-    j = mc + 1
-    if not (ct[j].text == "=" and ct[j + 1].text == ">"):
-        raise LostAnchor("macro => shape")
-    to = j + 2
-    tc = match_close(ct, to)
-    body = src_obj.src[ct[to].end:ct[tc].start]
-    if tc + 1 < mdef.body_close and not (ct[tc + 1].text == ";" and tc + 2 >= mdef.body_close):
-        raise LostAnchor("macro with several rules")
-    args = split_top(argtext, ",")
-    args = [a.strip() for a in args if a.strip()]
-    matcher_n = re.sub(r"\s+", "", matcher)
-    rep = re.fullmatch(r"\$\(\$([a-z_]+):(ident|ty)\),\+", matcher_n)
-    binds = {}
-    repname = None
-    if rep:
-        repname = rep.group(1)
-        replist = args
-    else:
+    while i < mdef.body_close:
+        if ct[i].text != "(":
+            raise LostAnchor("macro matcher shape")
+        mc = match_close(ct, i)
+        matcher = src_obj.src[ct[i].end:ct[mc].start]
+        j = mc + 1
+        if not (ct[j].text == "=" and ct[j + 1].text == ">"):
+            raise LostAnchor("macro => shape")
+        to = j + 2
+        tc = match_close(ct, to)
+        body = src_obj.src[ct[to].end:ct[tc].start]
+        rules.append((matcher, body))
+        i = tc + 1
+        if i < mdef.body_close and ct[i].text == ";":
+            i += 1
+    argtext_s = argtext.strip()
+    for matcher, body in rules:
+        matcher_n = re.sub(r"\s+", "", matcher)
+        if matcher_n == "":
+            if argtext_s == "":
+                return body
+            continue
+        if argtext_s == "":
+            continue
+        rep = re.fullmatch(r"\$\(\$([a-z_]+):(ident|ty)\)(,?)([+*])", matcher_n)
+        if rep:
+            sep = rep.group(3)
+            if sep == ",":
+                args = [a.strip() for a in split_top(argtext, ",") if a.strip()]
+            else:
+                args = argtext.split()
+            return expand_body(body, {}, rep.group(1), args)
+        # `$($a:ty => $b:expr),* $(,)?`  (pairs)
+        rep2 = re.fullmatch(r"\$\(\$([a-z_]+):(ident|ty)=>\$([a-z_]+):(ident|ty|expr)\),[+*](\$\(,\)\?)?", matcher_n)
+        if rep2:
+            pairs = [a.strip() for a in split_top(argtext, ",") if a.strip()]
+            parts = []
+            inner = re.search(r"\$\((.*)\)[*+]", body, re.S)
+            if not inner:
+                raise LostAnchor("macro pair body")
+            for pr in pairs:
+                l, _, r = pr.partition("=>")
+                parts.append(expand_body(inner.group(1), {rep2.group(1): l.strip(), rep2.group(3): r.strip()}, None, []))
+            return body[:inner.start()] + "".join(parts) + body[inner.end():]
         names = re.findall(r"\$([a-z_]+):(?:ident|ty|expr)", matcher_n)
-        if len(names) != len(args):
-            raise LostAnchor("macro arity")
-        binds = dict(zip(names, args))
-        replist = []
-    return expand_body(body, binds, repname, replist)
+        args = [a.strip() for a in split_top(argtext, ",") if a.strip()]
+        if len(names) == len(args):
+            return expand_body(body, dict(zip(names, args)), None, [])
+    raise LostAnchor("no macro rule matches `%s`" % call_text.strip()[:80])
 
 
 def split_top(s, sep):
@@ -545,6 +574,9 @@ class Unit:
                 i = j
             elif w == "ret":
                 spl["ret"] = words[1]
+                i += 1
+            elif w == "strlen":
+                spl["strlen"] = words[1]
                 i += 1
             elif w == "body" and words[1] == "external":
                 spl["external"] = True
